@@ -41,8 +41,9 @@ structure DataInv (s : State) : Prop where
   /-- a cached buffer holds the data of its key -/
   cacheGood : ∀ e ∈ s.cache, s.heap[e.2]? = some (.dataOf e.1)
   locStored : ∀ r, located s.vols r = true → s.stored.contains r = true
-  /-- unsynced file content only exists in volumes marked as changed -/
-  dirtyChanged : ∀ v i sl, slotAt s.vols v i = some sl → sl.durable = false → v ∈ s.changed
+  /-- unsynced file content only exists in volumes marked as changed — or in a volume whose flag a
+  running (serialised) Sync has just cleared and is about to fsync -/
+  dirtyChanged : ∀ v i sl, slotAt s.vols v i = some sl → sl.durable = false → v ∈ s.changed ∨ v ∈ s.inflight
   /-- `StoreSector` calls in flight belong to distinct writers -/
   pendW : (s.pending.map (·.w)).Nodup
 
@@ -67,7 +68,8 @@ def freeAt (vs : List Volume) (v i : Nat) : Prop := ∀ sl, slotAt vs v i = some
 * `reserve`: no second upload of a root while its first upload is in flight  (current code: `C02_two_writers_witness`)
 * references are created by the upload protocol only (`Committable`)         (`VolumeManager.StoreSector` does not: `C02_unsynced_temp_witness`)
 * the buffer handed to `Write` holds the data of the root when it is written (caller obligation)
-* no read of a root whose upload is in flight (it is neither acknowledged nor referenced) -/
+* no read of a root whose upload is in flight (it is neither acknowledged nor referenced)
+* the atomic `sync` is not run while another Sync is between its two phases (`Sync` is serialised) -/
 def Safe (s : State) (op : Op) : Prop :=
   C08.Safe s op ∧
   match op with
@@ -80,6 +82,7 @@ def Safe (s : State) (op : Op) : Prop :=
   | .addTemp r _ => Committable s r
   | .addTemps l => ∀ t ∈ l, Committable s t.sec
   | .read r => ¬ isPending s r
+  | .sync => s.inflight = []
   | _ => True
 
 /-! ## located / holdsAt -/
@@ -246,7 +249,8 @@ theorem dataInv_frame {s s' : State} (h : DataInv s)
     (hf : ∀ r ∈ s'.fresh, located s.vols r = true ∧ ¬ isPending s r) (hrec : ∀ r ∈ s'.fresh, r ∈ s'.recent)
     (hc : ∀ e ∈ s'.cache, s'.heap[e.2]? = some (.dataOf e.1))
     (hst : ∀ r, s.stored.contains r = true → s'.stored.contains r = true)
-    (hch : ∀ v ∈ s.changed, v ∈ s'.changed) : DataInv s' := by
+    (hch : ∀ v ∈ s.changed, v ∈ s'.changed)
+    (hin : ∀ v ∈ s.inflight, v ∈ s'.inflight := by intro _ hx; exact hx) : DataInv s' := by
   have hpa : ∀ v i r, pendingAt s v i r → pendingAt s' v i r := by
     intro v i r ⟨p, hp', e⟩; exact ⟨p, hp ▸ hp', e⟩
   have hip : ∀ r, isPending s' r → isPending s r := by
@@ -279,7 +283,7 @@ theorem dataInv_frame {s s' : State} (h : DataInv s)
     exact hst r (h.locStored r hr')
   · intro v i sl h1 h2
     rw [hv] at h1
-    exact hch v (h.dirtyChanged v i sl h1 h2)
+    exact (h.dirtyChanged v i sl h1 h2).imp (hch v) (hin v)
 
 theorem committable_of_ref {s : State} {r : SectorId} (h : referenced s r = true) : Committable s r := Or.inl h
 
@@ -447,10 +451,10 @@ theorem dataInv_refs_shrink {s s' : State} (h : DataInv s)
     (hv : s'.vols = s.vols) (hp : s'.pending = s.pending) (hu : s'.unsynced = s.unsynced) (hl : s'.lostNow = s.lostNow)
     (hf : s'.fresh = s.fresh) (hrec : s'.recent = s.recent) (hc : s'.cache = s.cache) (hh : s'.heap = s.heap)
     (hst : s'.stored = s.stored) (hch : s'.changed = s.changed)
-    (hr : ∀ r, referenced s' r = true → referenced s r = true) : DataInv s' :=
+    (hr : ∀ r, referenced s' r = true → referenced s r = true) (hin : s'.inflight = s.inflight := by rfl) : DataInv s' :=
   dataInv_frame h hv hp hu (fun r hx => hl ▸ hx) (fun r hx => Or.inl (hr r hx)) (fun r hx => h.freshSafe r (hf ▸ hx))
     (fun r hx => by rw [hrec]; exact h.freshRec r (hf ▸ hx)) (fun e he => by rw [hh]; exact h.cacheGood e (hc ▸ he))
-    (fun r hx => hst ▸ hx) (fun v hx => hch ▸ hx)
+    (fun r hx => hst ▸ hx) (fun v hx => hch ▸ hx) (fun v hx => hin ▸ hx)
 
 theorem any_map_roots1 (g : C1 → C1) (hg : ∀ c a, a ∈ (g c).roots → a ∈ c.roots) (cs : List C1) (r : SectorId)
     (h : (cs.map g).any (fun c => c.roots.contains r) = true) : cs.any (fun c => c.roots.contains r) = true := by
@@ -836,8 +840,8 @@ theorem finish_data {s : State} (hm : MetaOK s) (h : DataInv s) (w : Nat) (ok : 
     · intro v i sl' h1 h2
       rw [modSlot_eq] at h1
       rcases slot_cases_modVol h1 with ⟨rfl, rfl, sl, h4, rfl⟩ | ⟨hne, h4⟩
-      · exact self_mem_addNew _ _
-      · exact mem_addNew (h.dirtyChanged v i sl' h4 h2)
+      · exact Or.inl (self_mem_addNew _ _)
+      · exact (h.dirtyChanged v i sl' h4 h2).imp mem_addNew id
   · -- rollback
     obtain ⟨hcl, hphys, volq, hvolq, hused⟩ := core_clear hm.core ⟨slp, hslp, hsecp⟩
     rw [hvolp] at hvolq; cases hvolq
@@ -893,7 +897,8 @@ theorem dataInv_slots {s s' : State} (h : DataInv s)
     (hf : ∀ r ∈ s'.fresh, r ∈ s.fresh) (hrec : ∀ r ∈ s.recent, r ∈ s'.recent)
     (hc : ∀ e ∈ s'.cache, s'.heap[e.2]? = some (.dataOf e.1))
     (hst : ∀ r, s.stored.contains r = true → s'.stored.contains r = true)
-    (hch : ∀ v ∈ s.changed, v ∈ s'.changed) : DataInv s' := by
+    (hch : ∀ v ∈ s.changed, v ∈ s'.changed)
+    (hin : ∀ v ∈ s.inflight, v ∈ s'.inflight := by intro _ hx; exact hx) : DataInv s' := by
   have hpa : ∀ v i r, pendingAt s v i r → pendingAt s' v i r := by
     intro v i r ⟨p, hp', e⟩; exact ⟨p, hp ▸ hp', e⟩
   have hip : ∀ r, isPending s' r → isPending s r := by
@@ -932,7 +937,7 @@ theorem dataInv_slots {s s' : State} (h : DataInv s)
   · intro v i sl' h1 hd
     rcases hslot v i sl' h1 with ⟨_, h3⟩ | ⟨sl, h3, _, e3⟩
     · rw [h3] at hd; cases hd
-    · exact hch v (h.dirtyChanged v i sl h3 (e3 hd))
+    · exact (h.dirtyChanged v i sl h3 (e3 hd)).imp (hch v) (hin v)
 
 theorem same_slot {vs : List Volume} {v i : Nat} {sl : Slot} (h : slotAt vs v i = some sl) :
     (sl.sec = none ∧ sl.durable = true) ∨
@@ -1406,7 +1411,7 @@ theorem foldSync_skel (l : List Nat) (vs : List Volume) : (l.foldl (fun vs w => 
   | nil => rfl
   | cons x xs ih => simp only [List.foldl_cons]; rw [ih, syncVol_skel]
 
-theorem sync_data {s : State} (h : DataInv s) : DataInv (sync s) := by
+theorem sync_data {s : State} (h : DataInv s) (hidle : s.inflight = []) : DataInv (sync s) := by
   have hsk := foldSync_skel s.changed s.vols
   have hslot : ∀ v i sl', slotAt (sync s).vols v i = some sl' →
       sl'.durable = true ∧ ∃ sl, slotAt s.vols v i = some sl ∧ sl'.sec = sl.sec ∧ sl'.content = sl.content := by
@@ -1420,7 +1425,10 @@ theorem sync_data {s : State} (h : DataInv s) : DataInv (sync s) := by
       refine ⟨?_, sl', h1, rfl, rfl⟩
       cases hd : sl'.durable with
       | true => rfl
-      | false => exact absurd (h.dirtyChanged v i sl' h1 hd) hn
+      | false =>
+        rcases h.dirtyChanged v i sl' h1 hd with hx | hx
+        · exact absurd hx hn
+        · rw [hidle] at hx; cases hx
   refine ⟨?_, ?_, ?_, ?_, h.freshRec, h.cacheGood, ?_, ?_, h.pendW⟩
   · intro v i sl' r h1 h2
     obtain ⟨_, sl, h3, e1, e2⟩ := hslot v i sl' h1
@@ -1814,9 +1822,104 @@ theorem vmRemove_inv {s : State} (h : Inv s) (v : Nat) (force : Bool) (moves : L
       exact hs p hp
   · exact h2
 
+/-! ## Sync in two phases; resize from a stale total -/
+
+/-- the shape of the code for which the invariant is inductive: the dirty flag is cleared BEFORE the
+fsync (and Sync calls are serialised), and `ResizeVolume` reads the size under the status guard.
+The current code has neither: `C02_sync_flag_race_witness`, `C02_resize_stale_witness`. -/
+def ShapeOK (f : Facts) : Op → Prop
+  | .syncFsync _ => f.syncSerial = true
+  | .syncClear _ => f.syncSerial = true
+  | .vmResizeStale _ _ _ _ => f.resizeStatLocked = true
+  | _ => True
+
+theorem syncBegin_data {s : State} (h : DataInv s) : DataInv (syncBegin s).1 := by
+  simp only [syncBegin]; split
+  · exact h
+  · exact dataInv_frame h rfl rfl rfl (fun _ hx => hx) (fun r hr => Or.inl hr) h.freshSafe h.freshRec h.cacheGood
+      (fun _ hx => hx) (fun _ hx => hx)
+
+theorem syncEnd_data {s : State} (h : DataInv s) : DataInv (syncEnd s).1 := by
+  simp only [syncEnd]; split
+  · split
+    · exact dataInv_frame h rfl rfl rfl (fun _ hx => hx) (fun r hr => Or.inl hr) h.freshSafe h.freshRec h.cacheGood
+        (fun _ hx => hx) (fun _ hx => hx)
+    · exact h
+  · exact h
+
+/-- repaired shape, first phase: the flag moves from `changed` to `inflight` -/
+theorem syncClear_data {f : Facts} (hf : f.syncSerial = true) {s : State} (h : DataInv s) (v : Nat) : DataInv (syncClear f s v).1 := by
+  simp only [syncClear, hf, if_true]; split
+  · exact h
+  split
+  · refine ⟨h.slotData, h.slotDur, h.refSafe, h.freshSafe, h.freshRec, h.cacheGood, h.locStored, ?_, h.pendW⟩
+    intro v' i sl h1 h2
+    rcases h.dirtyChanged v' i sl h1 h2 with hx | hx
+    · by_cases e : v' = v
+      · exact Or.inr (e ▸ List.mem_cons_self)
+      · exact Or.inl (List.mem_filter.mpr ⟨hx, by simpa using e⟩)
+    · exact Or.inr (List.mem_cons_of_mem _ hx)
+  · exact h
+
+theorem hasDirty_of_slot {vs : List Volume} {v i : Nat} {sl : Slot} {r : SectorId} (h1 : slotAt vs v i = some sl)
+    (h2 : sl.sec = some r) (h3 : sl.durable = false) : hasDirty vs r = true := by
+  obtain ⟨vol, hv, hs⟩ := slotAt_split h1
+  simp only [hasDirty, List.any_eq_true]
+  exact ⟨vol, (findVol_some hv).1, sl, List.mem_of_getElem? hs, by simp [h2, h3]⟩
+
+/-- repaired shape, second phase: the fsync returned -/
+theorem syncFsync_data {f : Facts} (hf : f.syncSerial = true) {s : State} (h : DataInv s) (v : Nat) : DataInv (syncFsync f s v).1 := by
+  simp only [syncFsync, hf, if_true]; split
+  · exact h
+  split
+  · have hsk := syncVol_skel v s.vols
+    have hslot : ∀ v' i sl', slotAt (syncVol v s.vols) v' i = some sl' →
+        ∃ sl, slotAt s.vols v' i = some sl ∧ sl'.sec = sl.sec ∧ sl'.content = sl.content ∧
+          (sl'.durable = false → sl.durable = false ∧ v' ≠ v) := by
+      intro v' i sl' h1
+      rw [slotAt_syncVol] at h1
+      by_cases e : v' = v
+      · simp only [e, if_true] at h1
+        cases hs : slotAt s.vols v i with
+        | none => rw [hs] at h1; cases h1
+        | some sl => rw [hs] at h1; simp at h1; subst h1; exact ⟨sl, e ▸ hs, rfl, rfl, fun x => by simp at x⟩
+      · simp only [e, if_false] at h1
+        exact ⟨sl', h1, rfl, rfl, fun x => ⟨x, e⟩⟩
+    refine ⟨?_, ?_, ?_, ?_, h.freshRec, h.cacheGood, ?_, ?_, h.pendW⟩
+    · intro v' i sl' r h1 h2
+      obtain ⟨sl, h3, e1, e2, _⟩ := hslot v' i sl' h1
+      rw [e2]; exact h.slotData v' i sl r h3 (e1 ▸ h2)
+    · intro v' i sl' r h1 h2 hd
+      obtain ⟨sl, h3, e1, _, e4⟩ := hslot v' i sl' h1
+      rcases h.slotDur v' i sl r h3 (e1 ▸ h2) (e4 hd).1 with hx | hx
+      · exact Or.inl (List.mem_filter.mpr ⟨hx, hasDirty_of_slot h1 h2 hd⟩)
+      · exact Or.inr hx
+    · intro r hr
+      rcases h.refSafe r hr with hx | ⟨h1, h2, h3⟩
+      · exact Or.inl hx
+      · exact Or.inr ⟨by rw [located_of_skel hsk]; exact h1, fun hm => h2 (List.mem_filter.mp hm).1, h3⟩
+    · intro r hr
+      obtain ⟨h1, h3⟩ := h.freshSafe r hr
+      exact ⟨by rw [located_of_skel hsk]; exact h1, h3⟩
+    · intro r hr
+      rw [located_of_skel hsk] at hr; exact h.locStored r hr
+    · intro v' i sl' h1 hd
+      obtain ⟨sl, h3, _, _, e4⟩ := hslot v' i sl' h1
+      obtain ⟨hd', hne⟩ := e4 hd
+      rcases h.dirtyChanged v' i sl h3 hd' with hx | hx
+      · exact Or.inl hx
+      · exact Or.inr (List.mem_filter.mpr ⟨hx, by simpa using hne⟩)
+  · exact h
+
+/-- with the size read under the status guard a resize never works from a stale total -/
+theorem vmResizeStale_fixed {f : Facts} (hf : f.resizeStatLocked = true) (s : State) (cur v n : Nat) (moves : List Move) :
+    vmResizeStale f s cur v n moves = vmResize s v n moves := by
+  simp only [vmResizeStale, vmResize, hf, Bool.true_or, if_true]
+  split <;> rfl
+
 /-! ## the partial theorem -/
 
-theorem step_inv (f : Facts) {s : State} (h : Inv s) (op : Op) (hs : Safe s op) : Inv (step f s op).1 := by
+theorem step_inv (f : Facts) {s : State} (h : Inv s) (op : Op) (hs : Safe s op) (hsh : ShapeOK f op) : Inv (step f s op).1 := by
   obtain ⟨hm, hd⟩ := h
   obtain ⟨hs8, hs2⟩ := hs
   refine ⟨step_ok f hm op hs8, ?_⟩
@@ -1847,18 +1950,26 @@ theorem step_inv (f : Facts) {s : State} (h : Inv s) (op : Op) (hs : Safe s op) 
   | read r => exact read_data hm hd r hs2
   | newBuf c => exact newBuf_data hd c
   | mutate b c => exact mutate_data hd b c hs2
-  | sync => exact sync_data hd
+  | sync => exact sync_data hd hs2
   | resizeCache n => exact resizeCache_data hd n
   | crash lost => exact crash_data hd lost hs2.1 hs2.2
   | restart => exact restart_data hd
   | vmAddVolume id n => exact (vmAddVolume_inv ⟨hm, hd⟩ id n).2
   | vmResize v n moves => exact (vmResize_inv ⟨hm, hd⟩ v n moves hs8).2
   | vmRemove v force moves => exact (vmRemove_inv ⟨hm, hd⟩ v force moves hs8).2
+  | syncBegin => exact syncBegin_data hd
+  | syncFsync v => exact syncFsync_data hsh hd v
+  | syncClear v => exact syncClear_data hsh hd v
+  | syncEnd => exact syncEnd_data hd
+  | vmResizeStale cur v n moves =>
+    show DataInv (vmResizeStale f s cur v n moves).1
+    rw [vmResizeStale_fixed hsh]
+    exact (vmResize_inv ⟨hm, hd⟩ v n moves hs8).2
 
-/-- every step of the history satisfies `Safe` in the state it runs in -/
+/-- every step of the history satisfies `Safe` (and `ShapeOK`) in the state it runs in -/
 def SafeRun (f : Facts) : State → List Op → Prop
   | _, [] => True
-  | s, op :: ops => Safe s op ∧ SafeRun f (step f s op).1 ops
+  | s, op :: ops => Safe s op ∧ ShapeOK f op ∧ SafeRun f (step f s op).1 ops
 
 theorem init_inv (n : Nat) : Inv (init n) := by
   refine ⟨init_ok n, ⟨?_, ?_, ?_, ?_, ?_, ?_, ?_, ?_, ?_⟩⟩ <;>
@@ -1875,7 +1986,7 @@ theorem C02_read_intact_partial (f : Facts) (ops : List Op) : ∀ (s : State), I
   | cons op ops ih =>
     intro s h hs
     simp only [run, List.foldl_cons]
-    exact ih _ (step_inv f h op hs.1) hs.2
+    exact ih _ (step_inv f h op hs.1 hs.2.1) hs.2.2
 
 theorem C02_read_intact_partial_init (f : Facts) (cache : Nat) (ops : List Op) (hs : SafeRun f (init cache) ops) :
     Inv (run f (init cache) ops) := C02_read_intact_partial f ops _ (init_inv cache) hs
@@ -1917,7 +2028,7 @@ def goodOps : List Op :=
    .vmResize 1 2 [{ fromI := 2, toV := 2, toI := 0, inj := 0, ok := true }], .tick, .prune, .read 1]
 
 example : SafeRun Facts.code (init 4) goodOps := by
-  simp only [goodOps, SafeRun, Safe, C08.Safe, isPending, Committable, newRoots]
+  simp only [goodOps, SafeRun, Safe, C08.Safe, ShapeOK, isPending, Committable, newRoots]
   decide
 
 example : readContent (run Facts.code (init 4) goodOps) 1 = some (.dataOf 1) := by decide
@@ -2180,21 +2291,21 @@ theorem fixCache_inv (f : Facts) {s : State} (h : Inv s) : Inv (fixCache f s) :=
   · exact ⟨unalias_ok h.1, unalias_data h.2⟩
   · exact h
 
-theorem stepF_inv (f : Facts) {s : State} (h : Inv s) (op : Op) (hs : Safe s op) : Inv (stepF f s op).1 := by
+theorem stepF_inv (f : Facts) {s : State} (h : Inv s) (op : Op) (hs : Safe s op) (hsh : ShapeOK f op) : Inv (stepF f s op).1 := by
   simp only [stepF]
   apply fixCache_inv
   cases op with
   | finish w ok =>
-    have := step_inv f h (.finish w ok) hs
+    have := step_inv f h (.finish w ok) hs hsh
     simp only [finishF]
     split
     · rw [finishChecked_eq h.1]; exact this
     · exact this
-  | _ => exact step_inv f h _ hs
+  | _ => exact step_inv f h _ hs hsh
 
 def SafeRunF (f : Facts) : State → List Op → Prop
   | _, [] => True
-  | s, op :: ops => Safe s op ∧ SafeRunF f (stepF f s op).1 ops
+  | s, op :: ops => Safe s op ∧ ShapeOK f op ∧ SafeRunF f (stepF f s op).1 ops
 
 /-- `C02_read_intact_partial` for the tree selected by `f` -/
 theorem C02_read_intact_partial_F (f : Facts) (ops : List Op) : ∀ (s : State), Inv s → SafeRunF f s ops → Inv (runF f s ops) := by
@@ -2203,12 +2314,89 @@ theorem C02_read_intact_partial_F (f : Facts) (ops : List Op) : ∀ (s : State),
   | cons op ops ih =>
     intro s h hs
     simp only [runF, List.foldl_cons]
-    exact ih _ (stepF_inv f h op hs.1) hs.2
+    exact ih _ (stepF_inv f h op hs.1 hs.2.1) hs.2.2
 
 /-- with a copying cache the RHP update pattern of `C02_cache_alias_witness` leaves the old root intact -/
 theorem C02_cache_alias_fixed :
     readContent (runF Facts.fixed (init 4) aliasOps) 1 = some (.dataOf 1) ∧
       readContent (runF Facts.fixed (init 4) aliasOps) 2 = some (.dataOf 2) := by decide
+
+
+/-! ## `Sync` and `ResizeVolume`: durability clause, counterexamples for the current shape -/
+
+/-- **Durable once Sync returned.** Under the invariant (in particular: every volume holding unsynced
+data is marked dirty) an uncontended `Sync()` leaves no unsynced slot behind. -/
+theorem C02_sync_durable {s : State} (h : DataInv s) (hidle : s.inflight = []) :
+    ∀ v i sl, slotAt (sync s).vols v i = some sl → sl.durable = true := by
+  intro v i sl' h1
+  simp only [sync, slotAt_foldSync] at h1
+  split at h1
+  · cases hs : slotAt s.vols v i with
+    | none => rw [hs] at h1; cases h1
+    | some sl => rw [hs] at h1; simp at h1; subst h1; rfl
+  · rename_i hn
+    cases hd : sl'.durable with
+    | true => rfl
+    | false =>
+      rcases h.dirtyChanged v i sl' h1 hd with hx | hx
+      · exact absurd hx hn
+      · rw [hidle] at hx; cases hx
+
+/-- current shape of `VolumeManager.Sync` (fsync, then `delete(changedVolumes, id)`): RPC S syncs volume 1,
+RPC B's upload of sector 2 lands in volume 1 after S's fsync returned and marks the volume dirty before S
+clears the flag; B's own Sync finds nothing to do and returns; B's reference is committed; power loss. -/
+def syncRaceOps : List Op :=
+  [.vmAddVolume 1 3, .addC1 1 40, .newBuf (.dataOf 1), .reserve 0 1 0 (some (1, 0)), .finish 0 true,
+   .syncBegin, .syncFsync 1,
+   .newBuf (.dataOf 2), .reserve 0 2 1 (some (1, 1)), .finish 0 true,
+   .syncClear 1, .syncEnd,
+   .sync, .revise1 1 [.append 2], .crash [(1, 1)]]
+
+theorem C02_sync_flag_race_witness :
+    referenced (run Facts.code (init 0) syncRaceOps) 2 = true ∧ (run Facts.code (init 0) syncRaceOps).lostNow = [] ∧
+      readContent (run Facts.code (init 0) syncRaceOps) 2 = some .garbage := by decide
+
+/-- the dirty-flag invariant is what breaks: after S's `syncClear` volume 1 holds unsynced data but is not marked -/
+example : (run Facts.code (init 0) (syncRaceOps.take 12)).changed = [] ∧
+    nonDurable (run Facts.code (init 0) (syncRaceOps.take 12)).vols 1 1 = true := by decide
+
+/-- repaired shape (flag cleared first, Sync serialised): the same two RPCs; B's flag survives, B's own
+Sync fsyncs, nothing unsynced is left for a crash to take -/
+def syncRaceFixedOps : List Op :=
+  [.vmAddVolume 1 3, .addC1 1 40, .newBuf (.dataOf 1), .reserve 0 1 0 (some (1, 0)), .finish 0 true,
+   .syncBegin, .syncClear 1, .syncFsync 1,
+   .newBuf (.dataOf 2), .reserve 0 2 1 (some (1, 1)), .finish 0 true,
+   .syncEnd,
+   .sync, .revise1 1 [.append 2]]
+
+example : SafeRun Facts.fixed2 (init 0) syncRaceFixedOps := by
+  simp only [syncRaceFixedOps, SafeRun, Safe, C08.Safe, ShapeOK, isPending, Committable, newRoots]
+  decide
+
+theorem C02_sync_flag_race_fixed :
+    readContent (run Facts.fixed2 (init 0) syncRaceFixedOps) 2 = some (.dataOf 2) ∧
+      nonDurable (run Facts.fixed2 (init 0) (syncRaceFixedOps.take 13)).vols 1 1 = false := by decide
+
+/-- current shape of `ResizeVolume` (size read before the status check): resize R2 (target 3) read total = 2,
+then resize R1 grew the volume to 6 and sector 5 was uploaded to slot 4 and referenced; R2 passes the status
+check and "grows" 2 → 3: its first batch truncates the data file to 3 sectors. -/
+def resizeStaleOps : List Op :=
+  [.vmAddVolume 1 2, .addC1 1 40, .vmResize 1 6 [],
+   .newBuf (.dataOf 1), .reserve 0 1 0 (some (1, 0)), .finish 0 true,
+   .newBuf (.dataOf 5), .reserve 0 5 1 (some (1, 4)), .finish 0 true,
+   .sync, .revise1 1 [.append 1, .append 5],
+   .vmResizeStale 2 1 3 []]
+
+theorem C02_resize_stale_witness :
+    referenced (run Facts.code (init 0) resizeStaleOps) 5 = true ∧ (run Facts.code (init 0) resizeStaleOps).lostNow = [] ∧
+      (run Facts.code (init 0) resizeStaleOps).m.lost = 0 ∧
+      readContent (run Facts.code (init 0) resizeStaleOps) 5 = some .garbage ∧
+      readContent (run Facts.code (init 0) resizeStaleOps) 1 = some (.dataOf 1) := by decide
+
+/-- with the size read under the status guard the same calls shrink 6 → 3 (a shrink 6 → 3 that has to
+migrate slot 4 first; with no migration oracle given the model stops there): nothing is truncated -/
+theorem C02_resize_stale_fixed :
+    readContent (run Facts.fixed2 (init 0) resizeStaleOps) 5 = some (.dataOf 5) := by decide
 
 
 end Hostd.Props.C02
